@@ -1,15 +1,18 @@
 CONSTANTS
-  Threads = {1, 2}
+  Threads = {t1}
   Bugs = {}
+  Ghosts = TRUE
   MaxK = 2
-  MaxCtl = 4
+  MaxCtl = 5
   Cap = 3
   Sizes = {2}
-  NameSet = {"f"}
-  ModSet = {"a", "b"}
+  NameSet = {"f", "g"}
+  ModSet = {"a"}
   Maxes = {5}
   ExSets = {{"a"}}
   TsSet = {100}
+  CtlOps = {"prefix", "rm", "enable", "disable"}
+  Dir0 = 0
 SPECIFICATION MSpec
 INVARIANTS TypeOK ExactlyOnceInOrder Flushed CommitDecided InflightCount AppendOnlyWhileUp TablesConsistent DecodeOK FilterExact RolloverOK
 CHECK_DEADLOCK FALSE
